@@ -14,7 +14,12 @@
                                                                xml_parse_total_and_safe (all three)
    "accepts comments wherever white space is allowed"       -> xml_comment_skipped_like_white_space,
                                                                xml_tokenizer_depends_on_text_only,
-                                                               xml_comment_in_front_of_any_token
+                                                               xml_comment_in_front_of_any_token,
+                                                               xml_gap_in_front_of_any_token (any mix of
+                                                               white space and comments)
+        (white space is allowed exactly in front of tokens: every token is read through readToken,
+         which starts with the white-space scanner; a comment glued to the END of a name is part of
+         the name, as any other byte that is not / > = or white space)
    "(and processing instructions before the root element)"  -> xml_pi_before_root_skipped
    "for every element tree with well-formed names, arbitrary
     attribute values and non-blank, non-adjacent text nodes,
@@ -88,6 +93,14 @@ Theorem xml_comment_in_front_of_any_token : forall b p p', comment_body b = true
   rest p = comment b ++ rest p' -> tok_rel (readToken p) (readToken p').
 Proof. exact readToken_comment. Qed.
 Print Assumptions xml_comment_in_front_of_any_token.
+
+Theorem xml_gap_in_front_of_any_token : forall g p p', gap g -> rest p = g ++ rest p' -> tok_rel (readToken p) (readToken p').
+Proof. exact readToken_gap. Qed.
+Print Assumptions xml_gap_in_front_of_any_token.
+
+(* SP LF <!--c LF--> TAB is a gap *)
+Example ex_gap : gap (32 :: 10 :: (comment [99; 10] ++ [9])).
+Proof. exact (gap_space 32 _ eq_refl (gap_space 10 _ eq_refl (gap_comment [99; 10] [9] eq_refl (gap_space 9 [] eq_refl gap_nil)))). Qed.
 
 Theorem xml_pi_before_root_skipped : forall f p a r, pi_body a = true -> rest p = [60; 63] ++ a ++ [63; 62] ++ r ->
   prolog (S f) p = bind (skipSpace (mkPos r (off p + 2 + (zlen a + 2)) (line p) (ls p))) (fun q1 => prolog f q1).
